@@ -260,7 +260,8 @@ class AsyncIOClient(ABC):
                     await self.writer.drain()
                     self.logger.debug(f"Sent: {msg.hex()}")
 
-        except (ValueError, NotImplementedError) as ve:
+        except (ValueError, TypeError, NotImplementedError) as ve:
+                # TypeError: a header attribute (priority, source, destination) that is None or not a number
                 self.logger.warning(f"Failed to encode message. Error {ve}")
         except Exception as ex:
             if self._state != State.CLOSED:
